@@ -124,8 +124,10 @@ pub fn execute(prop: &str, base: u64, index: u64, thorough: bool, keep_trace: bo
 /// C15 verdicts of a finished run
 pub fn c15_violations(prep: &Prepared, res: &ConcResult) -> Vec<Violation> {
     let mut out = Vec::new();
+    // the tree as the unwound run left it (only needed, and only built, when there is a finding)
+    let post: Option<crate::gen::View> = if res.findings.is_empty() { None } else { Some(crate::engine::passthrough(|| crate::gen::View::build(&prep.world))) };
     for f in &res.findings {
-        if let Some((sig, detail)) = deadlock_sig(&prep.view, &prep.world, &prep.scenario, f) {
+        if let Some((sig, detail)) = deadlock_sig(&prep.view, post.as_ref(), &prep.world, &prep.scenario, f) {
             out.push(Violation { prop: "C15".into(), sig, detail, at: 0 });
         }
     }
